@@ -382,6 +382,15 @@ pub fn set_fault(f: Fault) {
     FAULT_COUNT.with(|c| c.set(0));
 }
 
+/// Save / restore the fault policy with its request counter (multi-arena drivers keep one per arena).
+pub fn get_fault_state() -> (Fault, usize) {
+    (FAULT.with(|c| c.get()), FAULT_COUNT.with(|c| c.get()))
+}
+pub fn set_fault_state(st: (Fault, usize)) {
+    FAULT.with(|c| c.set(st.0));
+    FAULT_COUNT.with(|c| c.set(st.1));
+}
+
 pub fn set_placement(p: Placement) {
     PLACEMENT.with(|c| c.set(p));
 }
